@@ -620,10 +620,15 @@ def run(P, R, tier):
     # a text slice handed on starts inside the reply: its offset is covered by the bytes that were tested
     from . import c05
     c05.slices(P, Remap(R, {'C05.TAB.1': 'C08.TAB.3'}))
+    # a service's account text is copied with its length limit and always terminated
+    w5 = c05.account_writers(P, Remap(R, {}))
+    c05.account_copy(P, Remap(R, {'C05.BND.1': 'C08.BND.3'}), w5)
     # an unrecognised reply text is dropped, not booked as the service's final answer
     from . import c02
     c02.release_recognised(P, R, cl4, 'C08.GRD.3')
     # the announced address is parsed by the daemon's own parser: every subscript and shift in it is in range
     from . import c13
     c13.numeric_rules(P, R, c13.scope(P), prefix='C08')
+    # ... and it is parsed with a NULL prefix-length output, which the parser must treat as optional everywhere
+    c13.optional_outputs(P, R, c13.scope(P), 'C08.NULL.3')
     return EXPLANATION, ASSUMPTIONS
